@@ -116,25 +116,22 @@ def divisor_vcs(env, rf):
 
 
 def guarded_next(env, rf, call=None):
-    """get_next_abscissa() with the divisor VCs in front of it.  On the branch
-    where some divisor is zero the real code must raise ZeroDivisionError (checked
-    on concrete replays) and the path ends."""
+    """get_next_abscissa() under Python-float division semantics: in symbolic
+    mode a division whose divisor can be zero forks and raises ZeroDivisionError
+    on that branch, exactly as the real floats do; a reachable ZeroDivisionError
+    is reported (and replayed on the real code)."""
+    import symex.poly as P
+
     call = call or rf.get_next_abscissa
-    ok = divisor_vcs(env, rf)
-    if not ok:  # forks in sym mode (infeasible when the VCs hold)
-        if not env.symbolic:
-            try:
-                call()
-                raised = False
-            except ZeroDivisionError:
-                raised = True
-            vc(env, raised, "divisor model agrees with the real code: ZeroDivisionError is raised")
-        raise _Stop()
+    old = P.STRICT_SCALAR_DIV
+    P.STRICT_SCALAR_DIV = True
     try:
         return call()
     except ZeroDivisionError:
-        env.fail("ZeroDivisionError although every modelled divisor is non-zero")
+        env.fail(DIV + "a divisor is zero on a reachable state")
         raise _Stop()
+    finally:
+        P.STRICT_SCALAR_DIV = old
 
 
 # ---------------------------------------------------------------------------
@@ -420,7 +417,8 @@ def instrumented(env, bm, log, zeros):
 
         def get_next_abscissa(self):
             k = log["steps"]
-            vc(env, binv(self, zeros=zeros), f"state reached after {k} steps satisfies BInv")
+            weak = zeros and not env.mutant("strict_sign_change")
+            vc(env, binv(self, zeros=weak), f"state reached after {k} steps satisfies BInv")
             a, b = self.a, self.b
             x = guarded_next(env, self, lambda: Real.get_next_abscissa(self))
             vc(env, weakly_between(x, a, b), f"query {k + 1} lies in the current bracket")
@@ -612,7 +610,7 @@ def cases(tier):
                 covers=COVERS,
                 bounds={"epsilon": e, "interval": geo, "tolerance": tol, "queries": 2,
                         "(f_start, f_end)": zends, "ordinates": "symbolic, each may be exactly 0"},
-                canaries=["open_interval_from_start"],
+                canaries=["strict_sign_change"],
                 weight=2.0,
                 # no random concrete runs: a random run that draws an exact zero hits the defect this case
                 # is about; the solver's counterexamples are still replayed on the real code
